@@ -105,19 +105,26 @@ class InitMethod(MethodDescriptor):
                             )
                             if instance_default is not MISSING:
                                 parent_kwargs[attr] = instance_default
+                    # A parent declared with `init=False` that does not write
+                    # its own constructor has none to call (the lookup would
+                    # find an ancestor's, or `object.__init__`): the attributes
+                    # it owns are initialised by its generated initialiser.
+                    parent_init = (
+                        parent.__init__
+                        if "__init__" in parent.__dict__
+                        else parent.__spec_class_init__
+                    )
                     if (
                         parent_metadata.key
                         and parent_metadata.key not in parent_kwargs
                         and parent_metadata.key
-                        in inspect.signature(parent.__init__).parameters
+                        in inspect.signature(parent_init).parameters
                     ):
                         # Satisfy the (positional) key parameter of a generated
                         # parent constructor; hand-written parent constructors
                         # only receive the attributes they own.
                         parent_kwargs[parent_metadata.key] = MISSING
-                    parent.__init__(  # pylint: disable=unnecessary-dunder-call
-                        self, **parent_kwargs
-                    )
+                    parent_init(self, **parent_kwargs)
 
         # For each attribute owned by this spec_cls in `instance_metadata`,
         # initialize the attribute.
